@@ -31,7 +31,7 @@ def World.contactsOf (w : World) (u : Uid) : List (String × Bool × Bool) :=
   let acc0 : List (String × Bool × Bool) := match w.fndSubs.find? (fun s => s.user = u ∧ !s.deleted) with
     | some s => [("fnd:" ++ u, false, isPresencer (s.want &&& s.given) && isJoiner (s.want &&& s.given))]
     | none => []
-  w.store.foldl (fun acc r =>
+  (w.store ++ w.orphans).foldl (fun acc r =>
     let acc := match r.subs.find? (fun s => s.user = u ∧ !s.deleted) with
       | some s =>
         let name := if isP2PKey r.name then p2pOther r.name u else r.name
@@ -440,7 +440,7 @@ def Ctx.opSetSubMe (c : Ctx) (a : Actor) (target : Uid) (mode : String) : Ctx :=
 /-- the user's subscriptions as `store.Users.GetTopics` returns them: every live subscription, a p2p topic under the other user's
 name, a channel under the `chn` spelling -/
 def World.topicsOf (w : World) (u : Uid) : List (String × SubRow) :=
-  w.store.flatMap (fun r =>
+  (w.store ++ w.orphans).flatMap (fun r =>
     (match r.subs.find? (fun s => s.user = u ∧ !s.deleted) with
       | some s => [(if isP2PKey r.name then p2pOther r.name u else r.name, s)]
       | none => []) ++
